@@ -310,4 +310,61 @@ def statusAfterAssignVariant (r : StatusReg) (codes : List Nat) : StatusReg :=
   let r' := codes.foldl StatusReg.setIfChanged r
   if r'.changes = r.changes then r'.setIfChanged 0 else r'
 
+/-! ## consumers sharing one descriptor
+
+Whatever the descriptor is (file, FIFO, pipe, here-document, …) the `read` builtin takes its input
+one byte per `read(2)` and stops right after the delimiter, or after the requested number of
+characters; `mapfile -n 1` takes one line, newline included.  What the next consumer sees is what is
+left. -/
+
+inductive ReadOp where
+  /-- `read -r -d <delim>` (`read -r`: delimiter newline) -/
+  | line (delim : Char)
+  /-- `read -r -n <n>`: at most `n` characters, stops early after a newline -/
+  | nchars (n : Nat)
+  /-- `mapfile -n 1`: one line, its newline kept in the value -/
+  | mapfile1
+
+/-- up to the delimiter: (value, delimiter reached, rest) -/
+def takeUntil (d : Char) : List Char → Str × Bool × List Char
+  | [] => ([], false, [])
+  | c :: cs =>
+    if c = d then ([], true, cs)
+    else
+      let r := takeUntil d cs
+      (c :: r.1, r.2.1, r.2.2)
+
+/-- at most `n` characters, stopping after the delimiter: (value, delimiter reached, rest) -/
+def takeN (d : Char) : Nat → List Char → Str × Bool × List Char
+  | 0, s => ([], false, s)
+  | _ + 1, [] => ([], false, [])
+  | n + 1, c :: cs =>
+    if c = d then ([], true, cs)
+    else
+      let r := takeN d n cs
+      (c :: r.1, r.2.1, r.2.2)
+
+structure Piece where
+  /-- what the consumer stores in its variable -/
+  value : Str
+  /-- what it removed from the descriptor -/
+  raw : List Char
+
+def pieceOf (d : Char) (keepDelim : Bool) (r : Str × Bool × List Char) : Piece × List Char :=
+  let tail := if r.2.1 then [d] else []
+  ({ value := if keepDelim then r.1 ++ tail else r.1, raw := r.1 ++ tail }, r.2.2)
+
+def applyOp : ReadOp → List Char → Piece × List Char
+  | .line d, s => pieceOf d false (takeUntil d s)
+  | .nchars n, s => pieceOf '\n' false (takeN '\n' n s)
+  | .mapfile1, s => pieceOf '\n' true (takeUntil '\n' s)
+
+/-- the consumers one after the other on the same descriptor: their pieces and what `cat` gets -/
+def runOps : List ReadOp → List Char → List Piece × List Char
+  | [], s => ([], s)
+  | op :: ops, s =>
+    let r := applyOp op s
+    let rs := runOps ops r.2
+    (r.1 :: rs.1, rs.2)
+
 end BrushVerif.Pipe
